@@ -332,6 +332,54 @@ func runC04(c *Ctx) {
 				}
 			}
 		}
+		// has_beginning: the first len(beginning) bytes of the text are sliced after a test on byte lengths; one-, two- and three-byte
+		// characters on either side. Where the slice is taken and matches, its length is shown by the match and compared with the model's
+		for _, hc := range []string{"a", "д", "日", "é"} {
+			for _, pc := range []string{"A", "Д", "日", "a", "É"} {
+				for h := 0; h <= 5; h++ {
+					for p := 0; p <= 5; p++ {
+						hay, pin := strings.Repeat(hc, h), strings.Repeat(pc, p)
+						d := map[string]any{"text": hay, "beginning": pin}
+						exp := "none"
+						if c.Guard("K-beginguard", "panic:has_beginning", d, func() {
+							v := cases.HasBeginning(env, types.NewXText(" "+hay+" "), types.NewXText(pin+"\t"))
+							if o, ok := v.(*types.XObject); ok && o.Truthy() {
+								m, _ := o.Get("match")
+								exp = fmt.Sprintf("ok %d", len(m.(*types.XText).Native()))
+							}
+						}) {
+							continue
+						}
+						if strings.EqualFold(hc, pc) {
+							c.Model("beginguard", fmt.Sprintf("beginguard %d %d", len(hay), len(pin)), exp, d)
+						}
+					}
+				}
+			}
+		}
+		// read_chars: byte slices at offsets counted in characters
+		for n := 0; n <= 13; n++ {
+			for _, alphabet := range []string{"0123456789", "abcXYZ", "дé日1"} {
+				var sb strings.Builder
+				for k := 0; k < n; k++ {
+					rs := []rune(alphabet)
+					sb.WriteRune(rs[(k*7+n)%len(rs)])
+				}
+				for _, plus := range []string{"", "+", "++"} {
+					text := plus + sb.String()
+					d := map[string]any{"text": text}
+					exp := ""
+					if c.Guard("K-readchars", "panic:read_chars", d, func() {
+						exp = "ok " + hx(functions.ReadChars(env, types.NewXText(text)).(*types.XText).Native())
+					}) {
+						continue
+					}
+					if alphabet != "дé日1" {
+						c.Model("readchars", "readchars "+hx(text), exp, d)
+					}
+				}
+			}
+		}
 		for i := 0; i < c.N(300, 3000); i++ {
 			p := Pick(r, []int{0, 1, -1, 9, 999, 1000, 1001, -999, -1000, -1001, 2147483647, -2147483648, 2147483648, -2147483649, 4294967296, r.Intn(2500) - 1250})
 			exp := "ok"
